@@ -1,4 +1,5 @@
 import StepModel.PyAggRefine
+import StepModel.PyAggLegacy
 /-!
 # C19 — the Python aggregates enforce EXPRESS aggregate semantics
 
@@ -223,6 +224,26 @@ theorem C19_set_never_duplicates (d : Decl) (s : PSet) (h : Reachable d (.set s)
 theorem C19_set_elements_typed (d : Decl) (s : PSet) (h : Reachable d (.set s)) : ∀ x ∈ s.cells, x.ty = d.base :=
   (show SetInv d s from reachable_inv h).typed
 
+/-- No duplicate in a SET or in a UNIQUE ARRAY/LIST: after any history, the EXPRESS value the object stands for
+has no two equal elements at different positions (`UniqueOK`, `PyAggRefine.lean`). -/
+theorem C19_unique_never_duplicates (d : Decl) (s : Agg) (h : Reachable d s) : UniqueOK d (abs s) := by
+  rcases h with ⟨s0, ops, hnew, rfl⟩
+  have h0 := (agg_new d).1 s0 hnew
+  apply uniqueOK_after d s0 h0.2.2 _ ops
+  rw [h0.2.1]
+  exact uniqueOK_initial d
+
+/-- … spelled out for a UNIQUE LIST: its elements are pairwise different after any history. -/
+theorem C19_unique_list_nodup (d : Decl) (l : Lst) (h : Reachable d (.lst l)) (hu : d.unique = true) :
+    l.cells.Nodup :=
+  (C19_unique_never_duplicates d (.lst l) h) hu
+
+/-- … and for a UNIQUE ARRAY: two different indices never hold the same value after any history. -/
+theorem C19_unique_array_distinct (d : Decl) (a : Arr) (h : Reachable d (.arr a)) (hu : d.unique = true)
+    (j k : Int) (hj : j ∈ indices d.lo a.hi) (hk : k ∈ indices d.lo a.hi) (hjk : j ≠ k) (x : Val)
+    (hx : absArr a j = some x) : absArr a k ≠ some x :=
+  (C19_unique_never_duplicates d (.arr a) h) hu a.hi (show ArrInv d a from reachable_inv h).hi j hj k hk hjk x hx
+
 /-- A refused operation leaves the aggregate's value as it was. -/
 theorem C19_refused_keeps_value (d : Decl) (s : Agg) (h : Reachable d s) (op : Op)
     (hr : (s.step op).2.obs = .refused) : abs (s.step op).1 = abs s := by
@@ -263,5 +284,47 @@ example : runDecl ⟨.list, 1, some 3, 0, true, false⟩ [.set 1 ⟨0, 0⟩, .se
     = some [.ok, .ok, .refused, .refused, .refused] := by decide
 example : runDecl ⟨.array, 1, some 3, 0, true, false⟩ [.set 1 ⟨0, 0⟩, .set 1 ⟨0, 0⟩, .set 2 ⟨0, 0⟩, .get 3]
     = some [.ok, .ok, .refused, .refused] := by decide
+
+/-! ## the defects this check found, as they were before the fixes (negation of the property on concrete histories;
+the same histories are corpus/C19/*.json and are replayed on the real code on every run) -/
+
+def bag02 : Decl := ⟨.bag, 0, some 2, 0, false, false⟩
+/-- Before C19-1: `BAG [0:2]` accepted a third element, which EXPRESS refuses. -/
+theorem C19_legacy_bag_capacity_witness :
+    let b0 : Bag := ⟨0, some 2, 0, []⟩
+    let b3 := (Legacy.bagAdd (Legacy.bagAdd (Legacy.bagAdd b0 ⟨0, 0⟩).1 ⟨0, 1⟩).1 ⟨0, 2⟩)
+    b3.2 = .ok ∧ b3.1.cells.length = 3 ∧
+    runDecl bag02 [.add ⟨0, 0⟩, .add ⟨0, 1⟩, .add ⟨0, 2⟩] = some [.ok, .ok, .refused] := by decide
+
+/-- Before C19-1: `SET [2:3]` refused its third element, which EXPRESS accepts. -/
+theorem C19_legacy_set_capacity_witness :
+    let s0 : PSet := ⟨2, some 3, 0, []⟩
+    (Legacy.setAdd (Legacy.setAdd (Legacy.setAdd s0 ⟨0, 0⟩).1 ⟨0, 1⟩).1 ⟨0, 2⟩).2 = .raised .assertion ∧
+    runDecl ⟨.set, 2, some 3, 0, false, false⟩ [.add ⟨0, 0⟩, .add ⟨0, 1⟩, .add ⟨0, 2⟩] = some [.ok, .ok, .ok] := by decide
+
+/-- Before C19-3: a UNIQUE ARRAY refused to overwrite a slot with the value it already held. -/
+theorem C19_legacy_unique_overwrite_witness :
+    let a0 : Arr := ⟨1, 3, true, false, 0, [none, none, none]⟩
+    (Legacy.arrSet (Legacy.arrSet a0 1 ⟨0, 0⟩).1 1 ⟨0, 0⟩).2 = .raised .assertion ∧
+    runDecl ⟨.array, 1, some 3, 0, true, false⟩ [.set 1 ⟨0, 0⟩, .set 1 ⟨0, 0⟩] = some [.ok, .ok] := by decide
+
+/-- Before C19-2: the first write to an unbounded LIST raised `TypeError`. -/
+theorem C19_legacy_unbounded_list_typeerror_witness :
+    ((Legacy.LLst.new 1 none 0 false).set 1 ⟨0, 0⟩).2 = .raised .type ∧
+    runDecl ⟨.list, 1, none, 0, false, false⟩ [.set 1 ⟨0, 0⟩] = some [.ok] := by decide
+
+/-- Before C19-4: `LIST [1:3]` accepted `l[3]` on an empty list (size 1, yet `l[1]` unreadable), and `LIST [0:2]`
+accepted index 0 and a third element beyond its upper bound 2. -/
+theorem C19_legacy_list_indexing_witness :
+    let l := ((Legacy.LLst.new 1 (some 3) 0 false).set 3 ⟨0, 0⟩)
+    l.2 = .ok ∧ l.1.size = 1 ∧ l.1.get 1 = .raised .assertion ∧
+    runDecl ⟨.list, 1, some 3, 0, false, false⟩ [.set 3 ⟨0, 0⟩] = some [.refused] ∧
+    (let m := (((Legacy.LLst.new 0 (some 2) 0 false).set 0 ⟨0, 0⟩).1.set 1 ⟨0, 1⟩).1.set 2 ⟨0, 2⟩
+     m.2 = .ok ∧ m.1.size = 3) := by decide
+
+/-- Before C19-4: on an unbounded `LIST [1:?]` holding two elements, `l[0]` wrapped around to the last element. -/
+theorem C19_legacy_list_negative_index_witness :
+    let l := (((Legacy.LLst.new 1 none 0 false).set 2 ⟨0, 7⟩).1.set 3 ⟨0, 8⟩).1
+    l.get 0 = .val ⟨0, 8⟩ := by decide
 
 end StepModel.PyAgg
